@@ -23,7 +23,7 @@ class AnchorLost(Exception):
 LOG_MACROS = {"trace", "debug", "info", "warn", "error", "crit"}
 ASSERT1 = {"debug_assert", "assert"}
 ASSERT2 = {"debug_assert_eq": "==", "assert_eq": "==", "debug_assert_ne": "!=", "assert_ne": "!="}
-CLAUSE_KW = ("sigreplace", "tags", "requires", "ensures", "decreases", "loop", "hint", "replace", "opt",
+CLAUSE_KW = ("sigreplace", "tags", "requires", "ensures", "decreases", "loop", "hint", "assert", "replace", "opt",
              "returns", "opens_invariants", "no_unwind", "recommends", "attr", "cut", "note")
 
 
@@ -364,6 +364,21 @@ def parse_fn_block(lines, qual, opts, lineno, template):
             if mm:
                 cid, rest = mm.group(1), rest[mm.end():]
             d.loops.setdefault(n, []).append((kind, cid, rest))
+        elif word == "assert":
+            # a NAMED intermediate obligation: `assert [ID|Cyy] before|after|after_block "anchor" [#n] :: spec expression`
+            mi = re.match(r"\[([^\]]+)\]\s*(before|after_block|after)\s*", text)
+            if not mi:
+                raise ValueError("%s:%d: bad assert: %s" % (template, lineno, text))
+            anchor, rest = _parse_quoted(text[mi.end():])
+            rest = rest.lstrip()
+            nth = None
+            m2 = re.match(r"#(\d+)\s*", rest)
+            if m2:
+                nth = int(m2.group(1))
+                rest = rest[m2.end():]
+            if not rest.startswith("::"):
+                raise ValueError("%s:%d: assert needs `::` before the expression" % (template, lineno))
+            d.hints.append((mi.group(2), anchor, nth, ("ASSERT", mi.group(1), rest[2:].strip())))
         elif word == "hint":
             m = re.match(r"(before|after_block|after)\s*(#\d+)?\s*", text)
             if not m:
@@ -767,7 +782,7 @@ class Gen:
         # 2. hints and loop clauses are spliced on the source tokens, with markers, before generic rewrites
         body = self.continue_to_else(body, fd)
         body = self.splice_loops(body, fd, rec)
-        body = self.splice_hints(body, fd)
+        body = self.splice_hints(body, fd, rec)
         body = rw.rewrite(body)
         for k, v in rw.counts.items():
             self.rewrites[k] = self.rewrites.get(k, 0) + v
@@ -799,8 +814,13 @@ class Gen:
         self.abstractions.append({"fn": self.cur_module + "::" + fd.qual, "source_text": pat, "becomes": rep, "why": label})
         return body[:toks[a].start] + rep + body[toks[b].end:]
 
-    def splice_hints(self, body, fd):
+    def splice_hints(self, body, fd, rec=None):
         for (where, anchor, nth, code) in fd.hints:
+            if isinstance(code, tuple):
+                _, cid, expr = code
+                idx = len(rec["_loop_clauses"])
+                rec["_loop_clauses"].append({"kind": "assert", "id": cid, "lines": None, "text": " ".join(expr.split())})
+                code = "proof { /*@C%d*/ assert(%s); }" % (idx, expr)
             toks = tokenize(body)
             hits = find_token_seq(toks, tokenize(anchor))
             if not hits:
